@@ -19,7 +19,7 @@ BUDGET = {'quick': 140, 'thorough': 1200}
 MODES = {'quick': [('J', 5), ('I', 11)], 'thorough': [('J', 6), ('I', 10)]}
 FLOORS = {'quick': {'visibility.cells_judged': 20000, 'has_invisible_cell': 300, 'observer.corner': 60, 'observer.edge': 100,
                     'vertical_angle': 400, 'cx!=cy': 120, 'modeI.tree.rotations': 200, 'modeI.tree.deletes': 2000, 'compiled_mode_cases': 60,
-                    'observer_elev.negative': 40},
+                    'observer_elev.negative': 40, 'mirror_relation': 150},
           'thorough': {'visibility.cells_judged': 200000, 'has_invisible_cell': 3000}}
 DONTCARE_OF = {'visibility.boundary_or_tie': 'visibility.cells_judged'}
 ASSUMPTIONS = ['the reference evaluates the same geometric model (corner positions, bearing unwrapping, corner elevations) by brute force; it shares the model, not the sweep / balanced-tree machinery',
@@ -188,6 +188,26 @@ def _run_case(rec, Z, vr, vc, obs, tgt, cx, cy, ydesc, kind, sample=False):
     rec.mx('max_cells', H * W)
     if sample:
         rec.sample(pay)
+    # mirror relation (independent of the reference model): flipping the terrain and the observer left-right must flip the
+    # viewshed; judged on cells outside the do-not-care band of both orientations
+    if H * W <= 64 and (vr + vc + H) % 3 == 0:
+        Zf = np.ascontiguousarray(Z[:, ::-1]); vcf = W - 1 - vc
+        rf = xr.DataArray(Zf.copy(), dims=['y', 'x'], coords={'y': ys, 'x': xs}, attrs={'res': (cx, cy)})
+        with contextlib.redirect_stdout(io.StringIO()):
+            of = rec.call(viewshed, rf, x=float(xs[vcf]), y=float(ys[vr]), **kw)
+        if hasattr(of, 'exc'):
+            rec.violation('viewshed.raises', 'viewshed raised on the mirrored terrain: %r' % of, pay)
+        else:
+            gf = np.asarray(of.data, dtype='float64')[:, ::-1]
+            lof, hif, vaf, _nb = los.reference(Zf.astype('float64'), vr, vcf, obs, tgt, ew, ns)
+            sure = (lo == hi) & (lof[:, ::-1] == hif[:, ::-1])
+            bad = sure & ((gf != -1) != vis)
+            if bad.any():
+                i = tuple(int(v) for v in np.argwhere(bad)[0])
+                rec.violation('viewshed.mirror_asymmetry', 'cell %s is %s but its mirror image is %s in the viewshed of the mirrored terrain'
+                              % (i, 'visible' if vis[i] else 'invisible', 'visible' if gf[i] != -1 else 'invisible'), dict(pay, mirrored=gf))
+            else:
+                rec.ok('mirror_relation')
     # identity of the raster (viewshed may widen the dtype, never change a value)
     if tuple(out.dims) != ('y', 'x') or not np.array_equal(out['x'].values, xs) or not np.array_equal(out['y'].values, ys):
         rec.violation('viewshed.identity', 'dims/coords of the result differ from the input', pay)
